@@ -36,7 +36,21 @@ func (b *B) EInv(x E) E {
 
 func (b *B) EDiv(x, y E) E { return b.EMul(x, b.EInv(y)) }
 
+// EExp is plonky2's Field::exp_u64 (least significant bit first).
 func (b *B) EExp(x E, e uint64) E {
+	cur := x
+	prod := b.EOne()
+	for j := 0; j < 64 && e>>uint(j) != 0; j++ {
+		if e>>uint(j)&1 == 1 {
+			prod = b.EMul(prod, cur)
+		}
+		cur = b.EMul(cur, cur)
+	}
+	return prod
+}
+
+// EExpMSB is the textbook most-significant-bit-first square-and-multiply (cross-check for small exponents).
+func (b *B) EExpMSB(x E, e uint64) E {
 	r := b.EOne()
 	for i := 63; i >= 0; i-- {
 		r = b.EMul(r, r)
